@@ -71,6 +71,29 @@ def graph_spec(draw, max_hypers=3, max_latents=2, max_data=3, latent_fams=None, 
         v = draw(gen.vec(node["dim"], -1.5, 1.5))
         vals[node["name"]] = [float(np.exp(t)) for t in v] if node["fam"] == "Lognormal" else v
     spec["values"] = vals
+    # a hyper-parameter may carry the very name of the attribute it feeds (prec=lambda prec: ..., scale=lambda scale: ...)
+    for h in hypers:
+        if not draw(st.sampled_from([False, False, True])):
+            continue
+        users = [nd for nd in latents + data if nd.get("hyper") == h["name"] or nd.get("hyper2") == h["name"]]
+        if len(users) != 1 or users[0].get("hyper2"):
+            continue
+        nd = users[0]
+        fam = nd["fam"]
+        attr = {"Gaussian": nd.get("form"), "GMRF": "prec", "LMRF": "scale", "CMRF": "scale", "Laplace": "scale", "Normal": "std",
+                "Lognormal": "cov"}.get(fam)
+        taken = set(vals) | {"mean", "location"}
+        # (a name that is also an attribute of ANOTHER density of the joint is refused by the library when the joint is
+        # conditioned - "the mutable variable ... is not a conditioning variable" - so such names are not generated)
+        ATTRS = {"Gaussian": {"cov", "prec", "sqrtcov", "sqrtprec"}, "GMRF": {"prec"}, "LMRF": {"scale"}, "CMRF": {"scale"}, "Laplace": {"scale"},
+                 "Normal": {"std"}, "Lognormal": {"cov"}, "Gamma": {"shape", "rate"}, "InverseGamma": {"shape", "scale"}, "Uniform": {"low", "high"},
+                 "Beta": {"alpha", "beta"}}
+        others = [o for o in latents + data + hypers if o is not nd]
+        if attr is None or attr in taken or any(attr in ATTRS.get(o["fam"], set()) for o in others):
+            continue
+        vals[attr] = vals.pop(h["name"])
+        nd["hyper"] = attr
+        h["name"] = attr
     return spec
 
 
